@@ -186,7 +186,7 @@ def rule_digit_loops(ctx, cfg, prog, rule='R-POLY/digits'):
                 bad.append('the accumulator receives %s, which is neither the accumulator nor a table entry' % sorted(map(str, others))[:2])
             c = got.t.get(acc, ZPoly())
             found = None
-            loopstart = False
+            loopstart = (frm != 'entry')        # an iteration of the digit loop (whatever the form of its condition)
             for k, lab in cd.items():
                 if k[0] == 'truth' and 'found_one' in k[1]:
                     found = lab
@@ -238,7 +238,7 @@ def rule_digit_loops(ctx, cfg, prog, rule='R-POLY/digits'):
                             dpos = lab
                         if k[1] == '<' and k[2] == digit:
                             dpos = not lab if dnz else None
-                    if k[0] == 'cmp' and k[1] == '<' and k[3] == S + '.wnaf_size':
+                    if k[0] == 'cmp' and k[1] == '<' and k[3] == S + '.wnaf_size' and md and k[2] == md.group(2):
                         inrange = lab
                 if dnz is not True:
                     bad.append('digit %s is used without being known non-zero' % digit)
